@@ -554,6 +554,53 @@ func runC13(r *Run) {
 		r.atLeast("outcome classifications in the handlers", n, 2)
 	})
 
+	r.rule("R16", "the previous window weighs by the fraction of it that still overlaps: the factor the sliding window multiplies prevHits with is a quotient formed in floating point (float64(left) / float64(window)); no integer division lies between the two times and the factor — an integer quotient of left/window is 1 in the first second and 0 afterwards, the hits of the previous window stop counting one second into the next (E3: the type of the division that feeds the weight)", func() {
+		h := limiterHandlers(r)["SlidingWindow"]
+		r.need(h != nil, "sliding-window handler")
+		n := 0
+		isPrev := func(v ssa.Value) bool {
+			if fa, ok := v.(*ssa.FieldAddr); ok {
+				if fv := fieldOfValue(fa); fv != nil && fv.Name() == "prevHits" {
+					return true
+				}
+			}
+			return false
+		}
+		isFloat := func(t types.Type) bool {
+			b, ok := t.Underlying().(*types.Basic)
+			return ok && b.Info()&types.IsFloat != 0
+		}
+		for _, b := range h.Blocks {
+			for _, in := range b.Instrs {
+				mul, ok := in.(*ssa.BinOp)
+				if !ok || mul.Op != token.MUL || !isFloat(mul.Type()) {
+					continue
+				}
+				var w ssa.Value
+				if dependsOn(mul.X, isPrev) != nil {
+					w = mul.Y
+				} else if dependsOn(mul.Y, isPrev) != nil {
+					w = mul.X
+				}
+				if w == nil {
+					continue
+				}
+				n++
+				intQuo := dependsOn(w, func(v ssa.Value) bool {
+					q, ok := v.(*ssa.BinOp)
+					return ok && (q.Op == token.QUO || q.Op == token.REM || q.Op == token.SHR) && !isFloat(q.Type())
+				})
+				floatQuo := dependsOn(w, func(v ssa.Value) bool {
+					q, ok := v.(*ssa.BinOp)
+					return ok && q.Op == token.QUO && isFloat(q.Type())
+				})
+				r.check(intQuo == nil && floatQuo != nil, fmt.Sprintf("SlidingWindow:weight#%d:fraction-in-floating-point", n), r.pos(in), "the weight is a floating-point quotient",
+					"the weight of the previous window passes through an integer division (or is no quotient at all): it is 1 or 0, never the fraction of the window that is left — with Max=8 and a 4 s window all 8 requests of the second window are admitted one second in, where the weighted rule allows 2")
+			}
+		}
+		r.atLeast("products of prevHits with a weight", n, 1)
+	})
+
 	r.rule("R10", "the sliding window keeps an entry into the next window: every manager.set of its handler uses a lifetime that includes the time left in the current window (E5)", func() {
 		h := limiterHandlers(r)["SlidingWindow"]
 		n := 0
